@@ -93,7 +93,7 @@ def gen_case(rng, tier="quick"):
                         "bath_eval", "scribble_bath", "tempo", "pt",
                         "dynamics", "gradient", "tebd", "mutate_after",
                         "fault_then", "system_use", "probe"],
-                  [1, 5, 6, 4, 4, 1, 2, 2, 3, 1, 2, 2, 1, 2, 4])
+                  [1, 5, 6, 4, 4, 1, 2, 2, 3, 1, 2, 2, 1, 5, 4])
         if k == "new_corr":
             kind, vals = gen_corr(rng)
             ops.append(["new_corr", kind, vals])
@@ -142,7 +142,12 @@ def gen_case(rng, tier="quick"):
         elif k == "fault_then":
             ops.append(["fault_then", rng.randrange(8), rng.randrange(1, 4)])
         else:
-            ops.append(["system_use", _pick(rng, LAYOUTS), rng.randrange(3)])
+            # one of a few shared System objects, with varying time step,
+            # number of steps, start time and consumer
+            ops.append(["system_use", rng.randrange(3), _pick(rng, LAYOUTS),
+                        rng.randrange(3), rng.randrange(1, 4),
+                        _pick(rng, ["dynamics", "tempo", "propagators",
+                                    "dynamics_pt"])])
     return {"ops": ops}
 
 
@@ -310,6 +315,7 @@ def run_case(case, dec):
         violations.append({"class": cls, "signature": sig, "detail": detail,
                            "fields": fields})
 
+    shared_systems = {}
     corrs = []   # {"obj", "kind", "vals"(current), "touched": set(attrs)}
     baths = []   # {"obj", "kind", "vals"(at construction), "coupling"}
     pts = []     # {"obj", "bath": index, "steps"}
@@ -672,35 +678,65 @@ def run_case(case, dec):
                          "when the caller later overwrote that array" % (
                              which, err), holder=which)
             elif k == "system_use":
-                # one System object in several computations, any order
-                ham = layout(0.4 * o["x"] + 0.3 * o["z"], op[1])
-                g = Guard(viol, "System")
-                g.add("hamiltonian", ham)
-                s = oqupy.System(ham, gammas=[0.2],
-                                 lindblad_operators=[layout(o["-"], op[1])])
-                first = np.array(s.liouvillian())
-                for _ in range(op[2] + 1):
-                    d = oqupy.compute_dynamics(
-                        s, o["up"], dt=0.1, num_steps=2,
-                        progress_type="silent")
-                    handed = s.hamiltonian
-                    try:
-                        handed[...] = 3.0
-                    except (ValueError, TypeError):
-                        pass
-                again = np.array(s.liouvillian())
-                g.check()
-                d2 = oqupy.compute_dynamics(
-                    oqupy.System(0.4 * o["x"] + 0.3 * o["z"], gammas=[0.2],
-                                 lindblad_operators=[o["-"]]), o["up"],
-                    dt=0.1, num_steps=2, progress_type="silent")
-                ok, err = _close(d.states, d2.states, 1e-12)
+                # shared System objects re-used with different arguments
+                si, lay, dti, steps, api = op[1], op[2], op[3], op[4], op[5]
+                dt = [0.05, 0.1, 0.2][dti]
+                hams = [0.4 * o["x"] + 0.3 * o["z"],
+                        0.7 * o["y"] - 0.2 * o["z"], 0.5 * o["x"]]
+                lops = [[o["-"]], [], [o["-"], o["z"]]]
+                gams = [[0.2], [], [0.1, 0.05]]
+
+                def fresh_system():
+                    return oqupy.System(np.array(hams[si]),
+                                        gammas=list(gams[si]),
+                                        lindblad_operators=[
+                                            np.array(x) for x in lops[si]])
+                if si not in shared_systems:
+                    g = Guard(viol, "System")
+                    ham = g.add("hamiltonian", layout(hams[si], lay))
+                    lo = [g.add("lindblad%d" % j, layout(x, lay))
+                          for j, x in enumerate(lops[si])]
+                    shared_systems[si] = oqupy.System(
+                        ham, gammas=list(gams[si]), lindblad_operators=lo)
+                    g.check()
+                    stats["arrays_guarded"] += 1 + len(lo)
+                sysm = shared_systems[si]
+                handed = sysm.hamiltonian
+                try:
+                    handed[...] = 3.0       # getter result overwritten
+                except (ValueError, TypeError):
+                    pass
+
+                def consume_system(sy):
+                    if api == "dynamics":
+                        return oqupy.compute_dynamics(
+                            sy, RHO0, dt=dt, num_steps=steps, start_time=0.3,
+                            progress_type="silent").states
+                    if api == "propagators":
+                        a1, a2 = sy.get_propagators(dt, 0.0, None, 1e-8)(1)
+                        return np.concatenate([a1.ravel(), a2.ravel()])
+                    if api == "dynamics_pt":
+                        need_pt()
+                        return oqupy.compute_dynamics(
+                            sy, RHO0, process_tensor=pts[0]["obj"],
+                            progress_type="silent").states
+                    need_bath()
+                    tp = oqupy.TempoParameters(dt=dt, epsrel=EPSREL, dkmax=2)
+                    return oqupy.Tempo(
+                        sy, fresh_bath(baths[0]), tp, RHO0, 0.0).compute(
+                            (steps + 0.5) * dt, progress_type="silent").states
+                got = consume_system(sysm)
+                want = consume_system(fresh_system())
                 stats["computations"] += 1
-                log.ev("system_use", op[1], ok)
-                if not ok or first.tobytes() != again.tobytes():
-                    viol("reuse_changes_result", "System/%s" % op[1],
-                         "a System used repeatedly answers differently from "
-                         "a fresh one (%.3g)" % err, holder="System")
+                ok, err = _close(got, want, max(TOL, 100 * EPSREL)
+                                 if api == "tempo" else 1e-10)
+                log.ev("system_use", si, dti, steps, api, ok)
+                if not ok:
+                    viol("reuse_changes_result", "System/%s" % api,
+                         "a System object used before (with other arguments) "
+                         "gives results differing by %.3g from a freshly "
+                         "built equal System in %s with dt=%g" % (
+                             err, api, dt), holder="System", call=api)
         except InjectedFault:
             raise
     return {
